@@ -8,7 +8,8 @@ Extracted from the live source on every run:
   * for each (pad_mode, method) leaf of the boundary tree the statements in program order:
     `out[0] = e`, `out[-1] = e`, then `out[k] += e` / `out[k] -= e`, with `e` a linear
     expression in f_arr[k] (k in 0,1,2,-3,-2,-1) and pad_const with rational coefficients;
-  * the attributes the operator classes pass on in `.adjoint` / `.derivative`.
+  * what each operator class's `.adjoint` / `.derivative` build (adjSpec / derivSpec): the
+    `return [-]Cls(…)` expressions, arguments bound against the constructor signature.
 The grammar is deliberately tiny.  Anything outside it raises ExtractionError, which the
 check treats as a broken obligation (then searches the real code), never as a pass.
 """
@@ -382,7 +383,105 @@ PINS_FILE = os.path.join(os.path.dirname(os.path.abspath(__file__)), 'finite_dif
 CLASSES = {'PartialDerivative': 'pd', 'Gradient': 'grad', 'Divergence': 'div', 'Laplacian': 'lap'}
 
 
-def _class_pins(cls):
+ADJ_MARK = '<return expression: regenerated (adjSpec)>'
+DER_MARK = '<affine test + return expressions: regenerated (derivSpec)>'
+DER_TEST = "self.pad_mode == 'constant' and self.pad_const != 0"
+
+
+def _bind_ctor(call, classes, where):
+    """`Cls(a, b, k=v)` -> (kind of Cls, {parameter name: unparsed argument}, {name: default}),
+    positional arguments bound with the parameter list of Cls.__init__ in the same module."""
+    if not isinstance(call, ast.Call) or not isinstance(call.func, ast.Name) or \
+            call.func.id not in CLASSES or call.func.id not in classes:
+        raise ExtractionError(where + ': does not construct one of the four classes: ' + _u(call))
+    init = [n for n in classes[call.func.id].body
+            if isinstance(n, ast.FunctionDef) and n.name == '__init__']
+    if len(init) != 1 or init[0].args.vararg or init[0].args.kwarg or init[0].args.kwonlyargs:
+        raise ExtractionError(where + ': unreadable constructor signature')
+    params = [a.arg for a in init[0].args.args][1:]
+    dflt = init[0].args.defaults
+    defaults = {n: _u(d) for n, d in zip(params[len(params) - len(dflt):], dflt)}
+    if len(call.args) > len(params) or any(isinstance(a, ast.Starred) for a in call.args):
+        raise ExtractionError(where + ': too many / starred arguments')
+    got = {n: _u(a) for n, a in zip(params, call.args)}
+    for kw in call.keywords:
+        if kw.arg is None or kw.arg not in params or kw.arg in got:
+            raise ExtractionError(where + ': bad keyword argument ' + repr(kw.arg))
+        got[kw.arg] = _u(kw.value)
+    return CLASSES[call.func.id], got, defaults
+
+
+def _pick(got, name, table, where):
+    v = got.get(name)
+    if v not in table:
+        raise ExtractionError('{}: argument {}={!r} outside the grammar {}'.format(
+            where, name, v, sorted(k for k in table if k is not None)))
+    return table[v]
+
+
+def _adjoint_spec(cls, body, classes):
+    """`.adjoint` after the optional linearity guard must be ONE statement
+    `return [-]Cls(…)` with domain/range swapped; read what it passes on:
+    -> dict(kind, adjM, adjP, keepC, neg)."""
+    where = cls.name + '.adjoint'
+    if len(body) != 1 or not isinstance(body[0], ast.Return) or body[0].value is None:
+        raise ExtractionError(where + ': body is not a single return statement')
+    e, neg = body[0].value, False
+    if isinstance(e, ast.UnaryOp) and isinstance(e.op, ast.USub):
+        e, neg = e.operand, True
+    kind, got, defaults = _bind_ctor(e, classes, where)
+    if got.get('domain') != 'self.range' or got.get('range') != 'self.domain':
+        raise ExtractionError(where + ': domain/range are not (self.range, self.domain)')
+    if kind == 'pd' and got.get('axis') != 'self.axis':
+        raise ExtractionError(where + ': axis is not self.axis')
+    if kind == 'lap':
+        if 'method' in got:
+            raise ExtractionError(where + ': Laplacian takes no method')
+        adj_m = False
+    else:
+        adj_m = _pick(got, 'method', {'_ADJ_METHOD[self.method]': True, 'self.method': False},
+                      where)
+    adj_p = _pick(got, 'pad_mode', {'_ADJ_PADDING[self.pad_mode]': True, 'self.pad_mode': False},
+                  where)
+    if 'pad_const' not in got and defaults.get('pad_const') != '0':
+        raise ExtractionError(where + ': pad_const not passed and its default is not 0')
+    keep_c = _pick(got, 'pad_const', {'self.pad_const': True, '0': False, None: False}, where)
+    extra = set(got) - {'domain', 'range', 'axis', 'method', 'pad_mode', 'pad_const'}
+    if extra:
+        raise ExtractionError(where + ': unknown arguments ' + repr(sorted(extra)))
+    return dict(kind=kind, adjM=adj_m, adjP=adj_p, keepC=keep_c, neg=neg)
+
+
+def _derivative_spec(cls, body, classes):
+    """`.derivative(point)` must be `if <DER_TEST>: return Cls(same domain, range, [axis,]
+    method, pad_mode, pad_const=…) else: return self`; -> dict(kind, zeroC)."""
+    where = cls.name + '.derivative'
+    if len(body) != 1 or not isinstance(body[0], ast.If) or _u(body[0].test) != DER_TEST:
+        raise ExtractionError(where + ': not a single `if {}`'.format(DER_TEST))
+    st = body[0]
+    if len(st.orelse) != 1 or _u(st.orelse[0]) != 'return self':
+        raise ExtractionError(where + ': else branch is not `return self`')
+    if len(st.body) != 1 or not isinstance(st.body[0], ast.Return):
+        raise ExtractionError(where + ': affine branch is not a single return')
+    kind, got, defaults = _bind_ctor(st.body[0].value, classes, where)
+    if got.get('domain') != 'self.domain' or got.get('range') != 'self.range':
+        raise ExtractionError(where + ': domain/range are not (self.domain, self.range)')
+    if kind == 'pd' and got.get('axis') != 'self.axis':
+        raise ExtractionError(where + ': axis is not self.axis')
+    if kind != 'lap' and got.get('method') != 'self.method':
+        raise ExtractionError(where + ': method is not self.method')
+    if got.get('pad_mode') != 'self.pad_mode':
+        raise ExtractionError(where + ': pad_mode is not self.pad_mode')
+    if 'pad_const' not in got and defaults.get('pad_const') != '0':
+        raise ExtractionError(where + ': pad_const not passed and its default is not 0')
+    zero_c = _pick(got, 'pad_const', {'0': True, None: True, 'self.pad_const': False}, where)
+    extra = set(got) - {'domain', 'range', 'axis', 'method', 'pad_mode', 'pad_const'}
+    if extra:
+        raise ExtractionError(where + ': unknown arguments ' + repr(sorted(extra)))
+    return dict(kind=kind, zeroC=zero_c)
+
+
+def _class_pins(cls, classes=None):
     """Normalised text of __init__, _call, adjoint, derivative of one operator class, with the
     two data-shaped parts taken OUT of the text and returned as flags:
       affine_aware : __init__ computes LINEAR_RULE and passes linear=linear (True) /
@@ -393,7 +492,8 @@ def _class_pins(cls):
         if not isinstance(node, ast.FunctionDef) or \
                 node.name not in ('__init__', '_call', 'adjoint', 'derivative'):
             continue
-        body = [_norm(s) for s in _strip_doc(node.body)]
+        stmts = _strip_doc(node.body)
+        body = [_norm(s) for s in stmts]
         body = ['<refused pad modes: regenerated>' if b.startswith('if pad_mode in (') else b
                 for b in body]
         if node.name == '__init__':
@@ -415,9 +515,16 @@ def _class_pins(cls):
         if node.name == 'adjoint':
             flags['adj_guarded'] = bool(body) and body[0] == ADJ_GUARD
             if flags['adj_guarded']:
-                body = body[1:]
+                body, stmts = body[1:], stmts[1:]
+            if classes is not None:     # ROUND 4: read, not pinned
+                flags['adj_spec'] = _adjoint_spec(cls, stmts, classes)
+                body = [ADJ_MARK]
+        if node.name == 'derivative' and classes is not None:
+            flags['der_spec'] = _derivative_spec(cls, stmts, classes)
+            body = [DER_MARK]
         pins[node.name] = body
-    if set(pins) != {'__init__', '_call', 'adjoint', 'derivative'} or len(flags) != 2:
+    if set(pins) != {'__init__', '_call', 'adjoint', 'derivative'} or \
+            len(flags) != (2 if classes is None else 4):
         raise ExtractionError('class {}: __init__/_call/adjoint/derivative not all found'
                               .format(cls.name))
     return pins, flags
@@ -463,7 +570,7 @@ def current_pins(tree):
     pins = {'finite_diff': keep}
     flags = {}
     for name in CLASSES:
-        pins[name], flags[name] = _class_pins(classes[name])
+        pins[name], flags[name] = _class_pins(classes[name], classes)
     return pins, flags
 
 
@@ -744,6 +851,23 @@ def render(d):
           '/-- which `.adjoint` start with `if not self.is_linear: raise ValueError` -/',
           'def adjGuarded : Kind → Bool'] + [
               '  | .{} => {}'.format(k, 'true' if d['flags'][c]['adj_guarded'] else 'false')
+              for c, k in CLASSES.items()] + [
+          '/-- what each class\'s `.adjoint` builds, read from its `return [-]Cls(…)` expression:',
+          'class, `_ADJ_METHOD[self.method]`?, `_ADJ_PADDING[self.pad_mode]`?, `self.pad_const` passed',
+          'on?, leading minus? (domain/range swapped is part of the grammar) -/',
+          'def adjSpec : Kind → AdjSpec'] + [
+              '  | .{} => ⟨.{}, {}, {}, {}, {}⟩'.format(
+                  k, d['flags'][c]['adj_spec']['kind'],
+                  *(('true' if d['flags'][c]['adj_spec'][f] else 'false')
+                    for f in ('adjM', 'adjP', 'keepC', 'neg')))
+              for c, k in CLASSES.items()] + [
+          '/-- what each class\'s `.derivative` builds in the branch `pad_mode == \'constant\' and',
+          'pad_const != 0` (else `self`): class, `pad_const` reset to 0? (same domain, range, axis,',
+          'method, pad_mode is part of the grammar) -/',
+          'def derivSpec : Kind → DerivSpec'] + [
+              '  | .{} => ⟨.{}, {}⟩'.format(
+                  k, d['flags'][c]['der_spec']['kind'],
+                  'true' if d['flags'][c]['der_spec']['zeroC'] else 'false')
               for c, k in CLASSES.items()] + [
           '/-- pad modes `Laplacian.__init__` refuses -/',
           'def lapRejected : List Pad := [{}]'.format(', '.join(
